@@ -292,8 +292,10 @@ impl<'a, T> ChordsV2<'a, T> {
         let mut presses = HVec::<_, SMOL_Q_LEN>::new();
         self.queue.retain(|qd| match qd.event {
             Event::Press(_, j) => {
-                let overflow = presses.push(j);
-                debug_assert!(overflow.is_ok());
+                // The input queue can hold more presses than this list.
+                // Only whether a press precedes a release matters below,
+                // so presses that do not fit are not needed.
+                let _ = presses.push(j);
                 true
             }
             Event::Release(_, j) => {
@@ -315,8 +317,9 @@ impl<'a, T> ChordsV2<'a, T> {
         for qd in self.queue.iter() {
             match qd.event {
                 Event::Press(_, j) => {
-                    let overflowed = presses.push(j);
-                    debug_assert!(overflowed.is_ok(), "too many presses in queue");
+                    // The input queue can hold more presses than this list.
+                    // Presses that do not fit are left for a later pass.
+                    let _ = presses.push(j);
                 }
                 Event::Release(_, j) => {
                     if presses.contains(&j) {
